@@ -384,16 +384,30 @@ func explore(c *engine.Ctx, r *engine.Report, cfg config) {
 }
 
 func run(c *engine.Ctx, r *engine.Report) {
-	r.Need("created", "use-ok", "use-rejected")
+	r.Need("created", "use-ok", "use-rejected", "entropy:short-read-refused", "entropy:full-reads-accepted")
 	for i, cfg := range configs {
 		if c.Mine(i) {
 			explore(c, r, cfg)
 		}
 	}
 	vclock.Reset()
+	for i, k := range entropyCases(c.Seed) {
+		if !c.Mine(i) {
+			continue
+		}
+		r.Eval(1)
+		if sig, msg := entropyOne(k, r); sig != "" {
+			r.Violate(sig, msg, k)
+		}
+	}
 }
 
 func replay(c *engine.Ctx, raw json.RawMessage) (string, bool) {
+	var ek entropyCase
+	if json.Unmarshal(raw, &ek) == nil && ek.Entropy {
+		sig, msg := entropyOne(ek, engine.NewReport())
+		return sig + ": " + msg, sig != ""
+	}
 	var rd replayData
 	if err := json.Unmarshal(raw, &rd); err != nil {
 		return err.Error(), false
@@ -422,6 +436,7 @@ func init() {
 		ID:    "C06",
 		Level: "model_checking",
 		Rule: "BFS (quick depth 4, thorough depth 6) over {create T1|T2, use Ti by K1|K2, authorize Kj, remove Kj, age by lifetime-1ns | 1ns | 2*lifetime, tamper Ti with clear-time | transplant of the sealed value | copy of the other token's whole record | bit-flip | downgrade} on the real registration code under a frozen virtual clock, for 6 configurations (storage wrapper off/on x maximum lifetime 1h, 1ns, 14d); state key = per token (presence, exact age up to lifetime+1ns, tamper tag, consumed) and per key whether it has a record; " +
+			"token creation with an application-supplied random source that delivers {0,1,2,16,31} bytes (nil error) on its first / second read, with and without a storage wrapper: creation must fail, else the stored id is attacked with 65536 offline key guesses and every token byte must have come from the source; " +
 			"distinct_nontrivial = number of canonical states reached over all configurations",
 		Assumptions: []string{"the storage wrapper is length-guarded: an edited record can hand go-kms-wrapping's aead wrapper a ciphertext shorter than its nonce, which panics inside that dependency (not attributed to this library)", "the tie age == lifetime is not constrained (the property says 'exceeds')", "without a storage wrapper the stored clear creation time is what governs expiry (the property promises tamper resistance only with a wrapper)"},
 		Shards:      func(c *engine.Ctx) int { return 6 },
